@@ -223,6 +223,8 @@ Inductive kase :=
        caller configured, against which the observed log is judged *)
 | KWG (n : nat) (items : list bool)
 | KCtor (obj : nat) (n : Z)
+| KCond    (* the fixed syncx.Cond scenario (Wait blocks; one Signal wakes exactly one waiter; a Signal
+              without a waiter is dropped): 31 = the five observations the Lim model's lsig relies on *)
 | KErr.     (* the implementation hung / never became quiescent: nothing can be confirmed *)
 
 (* events: kind 0 inv, 1 fs (body / task starts), 2 fe (ends), 3 ret (v1 = result),
@@ -264,6 +266,7 @@ Definition agrees1 (c : case1) : bool :=
       let '(s, ok) := drive (gstep (g_panics items)) g_at_gate (fun s _ => s) g_statuses (ginit n) (csteps c) in
       ok && zss_eqb (g_results s) (cres c)
     | KCtor obj n => zss_eqb [[ctor_expect obj n]] (cres c)
+    | KCond => zss_eqb [[31%Z]] (cres c)
     | KErr => false
     end
   else true.
@@ -288,6 +291,7 @@ Definition model_obs1 (c : case1) : list (Z * Z) * list (list Z) :=
     let '(s, ok) := drive (gstep (g_panics items)) g_at_gate (fun s _ => s) g_statuses (ginit n) (csteps c) in
     (g_statuses s, g_results s)
   | KCtor obj n => ([], [[ctor_expect obj n]])
+  | KCond => ([], [[31%Z]])
   | KErr => ([], [])
   end.
 
@@ -484,6 +488,7 @@ Definition prop_ok1 (c : case1) : bool :=
   | KWP v wa _ jn items => wp_scan (Z.of_nat jn) (clog c) 0 [] && wp_complete v items (clog c)
   | KWG n items => wp_scan (Z.of_nat n) (clog c) 0 [] && wg_complete n (clog c)
   | KCtor _ _ => true
+  | KCond => true
   | KErr => false
   end.
 
